@@ -206,6 +206,17 @@ def sub(d, k):
 # ------------------------------------------------------------------ YAML
 
 def param_decl(p):
+    d = _param_decl(p)
+    if p.get("upper"):
+        # docs/input.rst writes intent values in either case (+intent(IN) / +intent(in))
+        import re
+        if "intent(" not in d and p["kind"] in ("cstr_in", "ptr_in", "str_cref", "arr_in"):
+            d += " +intent(in)" if " +" not in d else "+intent(in)"
+        d = re.sub(r"intent\((\w+)\)", lambda m: "intent(%s)" % m.group(1).upper(), d)
+    return d
+
+
+def _param_decl(p):
     k, T, n = p["kind"], p.get("T"), p["name"]
     if k == "val":
         return "%s %s" % (p.get("spell") or T, n)      # spell: typedef name written in the declaration
